@@ -233,7 +233,8 @@ class C03(Check):
             'dicts, generators and iterator objects with leading empty items, exceptions at every point) x effects on '
             'the response (status ints and strings, headers, cookies, un-encodable header) x before/after hook lists '
             'with failing hooks x custom error handlers x methods x 404/405 x wsgi.file_wrapper on/off, each run '
-            'through a real Ombott() with recording hooks, start_response, close counters and stderr; non-trivial = '
+            'through a real Ombott() with recording hooks, start_response, close counters and stderr; hooks that edit their '
+            'own hook list; catchall on/off; the oracle additionally serves 2-3 request histories on one application; non-trivial = '
             'the handler ran or a hook/route error was rendered (everything except the bare 200 text case)')
     assumptions = [
         'file-likes are binary (a text-mode file-like yields str chunks; excluded by DESIGN section 7 "not defects")',
@@ -246,7 +247,20 @@ class C03(Check):
         'JSON error bodies (Accept: application/json) are modelled for errors that carry no exception object; '
         'a generated request asks for JSON only when no part of its program can raise a plain exception (the '
         'traceback text of such an error is not modelled)',
-        'config: catchall=True, debug=False (defaults, read into Gen/Wsgi.lean)',
+        'config: debug=False; catchall=True is the configuration of the theorems and of the oracle (default, read '
+        'into Gen/Wsgi.lean).  catchall=False is in the correspondence stream only (model: wsgiNoCatch): the property '
+        'says failures become a 500 "instead of escaping to the server", and letting them escape is exactly what '
+        'that option asks for, so an escaping exception under catchall=False is not a violation; what the current '
+        'code still answers with a 500 under catchall=False (failing handler/hook, first next()) is pinned by the '
+        'correspondence, so a change of it shows as a model/code disagreement',
+        'hooks may edit the hook list of the event being emitted (remove themselves, remove another hook, register a '
+        'new one): every hook registered when the emission starts runs exactly once in list order (emit iterates over a '
+        'snapshot); a hook registered during an emission runs from the next request on (appended for before_request, '
+        'prepended for after_request) - the oracle follows the registration lists across the requests of a history '
+        'with its own book-keeping',
+        'the oracle also serves short histories (2-3 requests) on one application, with the same response object '
+        '(errors_map singletons, module-level HTTPError/HTTPResponse of the application) answered more than once; '
+        'every per-answer clause must hold for every answer',
         'request methods are the upper-case standard ones',
         'a status given as a string is in the domain only in the documented form "ddd reason" (three ASCII digits, '
         'one space, non-empty reason without control characters); other strings are handler garbage outside the '
@@ -269,6 +283,8 @@ class C03(Check):
         fixed = systematic_cases()
         stats['systematic'] = len(fixed)
         for i in range(n + len(fixed)):
+            if stats.get('hangs', 0) >= 10:
+                break                                  # the run is failing; the search gets the hanging inputs
             if i >= n:
                 spec, req = fixed[i - n]
             else:
@@ -289,7 +305,7 @@ class C03(Check):
                 req['route'] = ('h', [], ('ret', loop))
                 stats['loops1000'] += 1
             try:
-                obs = zoo.watchdog(lambda: run_real(spec, req), 6)
+                obs = zoo.watchdog(lambda: run_real(spec, req), 6 if stats.get('hangs', 0) < 3 else 1)
                 ans = answer(obs)
             except zoo.HangB:
                 obs = dict(urlrepr=zoo.url_repr(zoo.make_environ(req, []), req), starts=[], shape='hang', log=[])
@@ -481,7 +497,8 @@ class C03(Check):
         cases += systematic_cases()
         hists = self._history_cases(rng, max(150, n // 8))
         for spec, hist in hists:
-            if len({f.key for f in findings}) >= 8 or len(findings) >= 60:
+            if len({f.key for f in findings}) >= 8 or len(findings) >= 60 or \
+                    sum(f.key == 'C03:hang' for f in findings) >= 2:
                 break
             if not all(self._in_domain(spec, h['req'], in_history=True) for h in hist):
                 continue
@@ -495,7 +512,8 @@ class C03(Check):
         for spec, req in cases:
             if not self._in_domain(spec, req):
                 continue
-            if len({f.key for f in findings}) >= 8 or len(findings) >= 60:
+            if len({f.key for f in findings}) >= 8 or len(findings) >= 60 or \
+                    sum(f.key == 'C03:hang' for f in findings) >= 3:
                 break           # enough replays; the run is failing anyway
             evals += 1
             try:
